@@ -568,9 +568,7 @@ def build_directed(ctx, k):
         addr = pyrtl.Register(aw, 'addr_r', reset_value=rng.randrange(1, 1 << aw))
         addr.next <<= a
         d.regs.append(addr)
-    widths = [4, aw, 5][:2 + (k // 3) % 2 + (1 if k % 2 else 0)][:3]
-    if len(widths) < 2:
-        widths = [4, aw]
+    widths = [4, aw, 5][:2 + k % 2]
     mems = []
     for j, bw in enumerate(widths):
         m = pyrtl.MemBlock(bitwidth=bw, addrwidth=aw, name='dm%d' % j, max_read_ports=None,
@@ -592,8 +590,7 @@ def build_directed(ctx, k):
     outs.append(('rd2_' + mems[0].name, pyrtl.as_wires(mems[0][b])))
     # the same wire as ADDRESS of a write port and as DATA of another write port
     mems[0][addr] <<= pyrtl.MemBlock.EnabledWrite(din[:mems[0].bitwidth], en)
-    mems[1][b] <<= pyrtl.MemBlock.EnabledWrite(addr[:mems[1].bitwidth] if mems[1].bitwidth <= aw
-                                               else addr.zero_extended(mems[1].bitwidth), ~en)
+    mems[1][b] <<= pyrtl.MemBlock.EnabledWrite(addr, ~en)     # mems[1].bitwidth == aw: the wire itself is the data
     if len(mems) > 2:
         mems[2][addr] <<= pyrtl.concat(din, en)
     for nm, w in outs:
